@@ -38,6 +38,16 @@ DODO = textwrap.dedent('''
         return {'actions': [(say, ['run stp'])]}
     def task_other():
         return {'actions': [(say, ['run other'])]}
+    def mk(path, msg):
+        with open(os.path.join(os.path.dirname(os.path.abspath(__file__)), path), 'w') as fh:
+            fh.write('x')
+        say(msg)
+    def task_produce():
+        return {'actions': [(mk, ['data.txt', 'run produce'])], 'targets': ['data.txt']}
+    @create_after(executed='pre')
+    def task_cons():
+        # file_dep on the target of a statically defined task: implicit task_dep
+        return {'actions': [(say, ['run cons'])], 'file_dep': ['data.txt']}
     @create_after(executed='pre')
     def task_late():
         return {'actions': [(say, ['run late'])], 'calc_dep': ['calc'], 'task_dep': ['dep1'], 'setup': ['stp']}
@@ -51,6 +61,7 @@ DODO = textwrap.dedent('''
 DEPS = {
     'pre': [], 'calc': [], 'calc2': [], 'extra': [], 'extra2': [], 'dep1': [], 'dep2': [], 'stp': [], 'other': [],
     'late': ['pre', 'calc', 'extra', 'dep1', 'stp'],
+    'produce': [], 'cons': ['pre', 'produce'],
     'gen:a': ['pre', 'calc2', 'extra2'],
     'gen:b': ['pre', 'dep2'],
 }
@@ -62,6 +73,8 @@ SELECTIONS = {
     ('gen:a',): ['gen:a'],
     ('gen',): ['gen:a', 'gen:b'],
     ('gen', 'late', 'other'): ['gen:a', 'gen:b', 'late', 'other'],
+    ('cons',): ['cons'],
+    ('cons', 'late'): ['cons', 'late'],
 }
 RUNNERS = (('serial', []), ('thread', ['-n', '2', '-P', 'thread']), ('proc', ['-n', '2']))
 
